@@ -165,7 +165,10 @@ macro_rules! apply_setters {
                 }
                 2 => {
                     if $cfg.weigher {
-                        $b = $b.weigher(|_k: &TK, v: &TV| v.weight);
+                        $b = $b.weigher(|_k: &TK, v: &TV| {
+                            crate::types::fault_point(crate::types::SITE_WEIGHER);
+                            v.weight
+                        });
                     }
                 }
                 3 => {
@@ -314,7 +317,10 @@ impl Cut {
     /// unsync only; a no-op on the concurrent cache (which has no such method).
     pub fn invalidate_if(&mut self, p: Pred) {
         if let Inner::U(c) = &mut self.inner {
-            c.invalidate_entries_if(move |k, v| p.eval(k.id, v.vid, v.weight));
+            c.invalidate_entries_if(move |k, v| {
+                crate::types::fault_point(crate::types::SITE_PRED);
+                p.eval(k.id, v.vid, v.weight)
+            });
         }
     }
 
